@@ -27,6 +27,9 @@ DATASETS = {
     "D3": ("lawA", 0, (333.15,), (0.1, 0.5, 0.9)),
     "D7": ("lawA", 0, (333.15,), tuple(U.CURVE_XS)),
     "D12": ("lawB", 1, (313.15, 343.15), (0.05, 0.2, 0.4, 0.6, 0.8, 0.95)),
+    # measurements AT the positions where include_zero puts its zero points (x = 0 for the first, x = 1 for the second component)
+    "D5edge0": ("lawA", 0, (333.15,), (0.0, 0.25, 0.5, 0.75, 1.0)),
+    "D6edge1": ("lawB", 1, (313.15, 343.15), (0.0, 0.5, 1.0)),
     "D24": ("lawA", 1, (303.15, 323.15, 343.15), (0.04, 0.12, 0.25, 0.4, 0.55, 0.7, 0.85, 0.97)),
     "D40": ("lawB", 0, (303.15, 318.15, 333.15, 348.15), tuple(0.03 + 0.1 * i for i in range(10))),
 }
@@ -254,7 +257,7 @@ def main(tier, seed):
                      "module-level data of every pyvaporation module; interpreter state outside that is covered by the fresh-interpreter "
                      "comparison of every operation", "best-of is checked for explicitly requested maximum orders"],
         technique="explicit-state breadth-first search over call histories on the real functions with canonical state hashing; fresh-interpreter differential oracle")
-    names = ["D3", "D7", "D12"] if q else list(DATASETS)
+    names = ["D3", "D7", "D12", "D5edge0", "D6edge1"] if q else list(DATASETS)
     depth = 2 if q else 3
     # reference digests from fresh interpreters, one spawn per (data set, operation)
     jobs = [(nm, i) for nm in names for i in range(len(OPS))]
@@ -264,7 +267,7 @@ def main(tier, seed):
     rep.note("fresh_interpreter_spawns", len(jobs))
     hist = []
     for nm in names:
-        menu = list(range(len(OPS))) if nm in ("D7", "D12") else ([1, 3, 5, 6, 10, 11, 12] if nm == "D3" else list(range(0, len(OPS), 2)) + [10, 11, 12])
+        menu = list(range(len(OPS))) if nm in ("D7", "D12") else ([1, 3, 5, 6, 10, 11, 12] if nm in ("D3", "D5edge0", "D6edge1") else list(range(0, len(OPS), 2)) + [10, 11, 12])
         for dpt in range(1, depth + 1):
             if dpt == 3 and nm not in ("D3", "D7"):
                 continue
@@ -294,6 +297,7 @@ def main(tier, seed):
             vcases.append({"dataset": vs, "methods": list(UQ.FITTING_ALGS), "repeat": "Powell", "complete": True})
     if q:
         vcases.append({"dataset": "MeOH_DMC", "methods": list(UQ.FITTING_ALGS), "repeat": None, "complete": True})
+        vcases.append({"dataset": "MeOH_Toluene", "methods": list(UQ.FITTING_ALGS), "repeat": None, "complete": True})
     core.run_space(rep, core.ListSpace("vle_fits", vcases), judge_vle, chunk=1, determinism_probe=0)
     fcases = []
     for al in (1e-3, 2.5, 40.0):
